@@ -68,6 +68,14 @@ func metricsHandler(metricsFilename string, w http.ResponseWriter, r *http.Reque
 		return
 	}
 
+	if r.Method == http.MethodHead {
+		// A response to HEAD has no body. Do not hand the file to io.Copy:
+		// net/http's sendfile path (ReadFrom) decides by the status code
+		// alone and would send the file after the header, so that the
+		// requests that follow on the connection read log lines instead of
+		// their responses.
+		return
+	}
 	if _, err := io.Copy(w, metricsFile); err != nil {
 		log.Printf("copying metricsFile returned error: %v", err)
 	}
